@@ -354,11 +354,20 @@ class X86:
             L = self.lin
             full = L.sub(L.sub(x, y), bin_ if bin_ is not None else L.const(0))
             r, k = L.wrap(full, 64, "b")
+            # sign and signed-overflow flags (needed by jl/jge/jg/jle/js/jns): over the integers, with X, Y the two's-complement readings of x, y
+            H = 1 << 63
+            zx, zy, zr = L.z(x), L.z(y), L.z(r)
+            zb = L.z(bin_) if bin_ is not None else z3.IntVal(0)
+            X = zx - z3.If(zx >= H, 1 << 64, 0)
+            Y = zy - z3.If(zy >= H, 1 << 64, 0)
+            S = X - Y - zb
             for f in setf:
                 if f == "CF":
                     self._set_flag("CF", L.neg(k))
                 elif f == "OF":
-                    self._set_flag("OF", UNDEF)
+                    self._set_flag("OF", z3.Or(S < -H, S >= H))
+                elif f == "SF":
+                    self.flags[f] = zr >= H
                 else:
                     self.flags[f] = UNDEF
             return r
@@ -672,6 +681,19 @@ class X86:
             cond = {"jb": lambda: cf(), "jc": lambda: cf(), "jae": lambda: z3.Not(cf()), "jnc": lambda: z3.Not(cf()),
                     "je": lambda: zf(), "jz": lambda: zf(), "jne": lambda: z3.Not(zf()), "jnz": lambda: z3.Not(zf()),
                     "ja": lambda: z3.And(z3.Not(cf()), z3.Not(zf())), "jbe": lambda: z3.Or(cf(), zf())}[mn]()
+            return tgt if self.branch(cond) else None
+        if mn in ("jl", "jge", "jg", "jle", "js", "jns", "jnge", "jnl", "jng", "jnle"):
+            if self.mode == "lin" and not self.lin_branch:
+                raise ExecError("unsupported", "conditional jump on affine flags before any compare at %#x" % self.cur)
+            tgt = base + int(ops[0], 16)
+            sf = lambda: self._flag_bool("SF")
+            of = lambda: self._flag_bool("OF")
+            zf = lambda: self._flag_bool("ZF")
+            lt = lambda: z3.Xor(sf(), of())
+            cond = {"jl": lt, "jnge": lt, "jge": lambda: z3.Not(lt()), "jnl": lambda: z3.Not(lt()),
+                    "jg": lambda: z3.And(z3.Not(zf()), z3.Not(lt())), "jnle": lambda: z3.And(z3.Not(zf()), z3.Not(lt())),
+                    "jle": lambda: z3.Or(zf(), lt()), "jng": lambda: z3.Or(zf(), lt()),
+                    "js": sf, "jns": lambda: z3.Not(sf())}[mn]()
             return tgt if self.branch(cond) else None
         if mn == "jmp":
             return base + int(ops[0], 16)
